@@ -17,7 +17,7 @@ open CaddyModel.Lifecycle
 
 /-- probe app 0 with one custom log writing to probe writer 1 -/
 def wLog : Cfg := ⟨0, [⟨0, 1⟩], [⟨0, 1, 0, [], []⟩]⟩
-def wEnv : Env := ⟨true, false, [], [0], [0]⟩
+def wEnv : Env := ⟨true, false, 0, [], [0], [0]⟩
 
 /-- Full clause: "cleanup callbacks registered for the configuration's lifetime are invoked when
     it ends":  ∀ ops c, cbReg c ∈ events → (context c has ended) → cbRun c ∈ events.
@@ -46,7 +46,7 @@ theorem writers_function_of_current_full_fails :
 def wRpA : Cfg := ⟨0, [], [⟨3, 1, 0, [], [⟨0, 4⟩]⟩]⟩
 /-- the same with a reverse proxy whose Provision fails early -/
 def wRpB : Cfg := ⟨0, [], [⟨3, 2, 0, [], [⟨3, 4⟩]⟩]⟩
-def wEnvH : Env := ⟨true, false, [], [3], []⟩
+def wEnvH : Env := ⟨true, false, 0, [], [3], []⟩
 
 /-- Full clause, hosts pool: ∀ ops k, mpool k = (keys held by the running config's modules).count k.
     Refuted: config A (reverse proxy to upstream 4) runs; config B, whose reverse proxy to the same
